@@ -35,7 +35,10 @@ CLAIM = {
     "design_ref": "DESIGN.md section 6 C05, Appendix A, Appendix C",
 }
 
-THEOREMS = ["Okane.C05.C05_format_parse", "Okane.C05.C05_roundtrip_partial", "Okane.C05.C05_idempotent_partial",
+THEOREMS = ["Okane.ParamsTie.nonCommodityChars_tie", "Okane.ParamsTie.isCommodityChar_tie", "Okane.ParamsTie.commentPrefix_tie",
+            "Okane.ParamsTie.accountStop_tie", "Okane.ParamsTie.accountEndChars_tie", "Okane.ParamsTie.lotNoteStopChars_tie",
+            "Okane.ParamsTie.lineOrSemiStopChars_tie", "Okane.ParamsTie.numberToken_tie",
+            "Okane.C05.C05_format_parse", "Okane.C05.C05_roundtrip_partial", "Okane.C05.C05_idempotent_partial",
             "Okane.C05.C05_entry_partial", "Okane.C05.C05_metadata_partial", "Okane.C05.C05_roundtrip_directives", "Okane.C05.C05_account",
             "Okane.C05.not_C05_image_full", "Okane.C05.not_C05_roundtrip_full", "Okane.C05.not_C05_idempotent_full",
             "Okane.C05.not_C05_eof_full",
